@@ -222,3 +222,33 @@ def _corpus():
             return SMSimfile(file=f)
     finally:
         xhlib.install_stub()
+
+
+def _in_gap(v):
+    """msdparser's escaping gaps excluded by the property: a '#' after a line break (directly or through ':', ';', '\\' only),
+    three or more consecutive '/'"""
+    n = len(v)
+    for i in range(n):
+        if v[i] == "#" and i > 0:
+            j = i - 1
+            while j >= 0 and (v[j] == ":" or v[j] == ";" or v[j] == chr(92)):
+                j -= 1
+            if j >= 0 and (v[j] == "\n" or v[j] == "\r"):
+                return True
+        if v[i] == "/" and i + 2 < n and v[i + 1] == "/" and v[i + 2] == "/":
+            return True
+    return False
+
+
+def lexer_lemma(v: str, follow: bool) -> bool:
+    """
+    pre: len(v) <= 2
+    pre: not _in_gap(v)
+    post: _
+    """
+    # the dependency contract the StubParam recorder stands for: str(MSDParameter) parses back to the same components
+    # (real serializer and real lexer; thorough tier only)
+    from msdparser import parse_msd
+    text = str(xhlib.RealMSDParameter(("K", v))) + ("\n#N:x;" if follow else "")
+    got = [tuple(p.components) for p in parse_msd(string=text)]
+    return got == [("K", v)] + ([("N", "x")] if follow else [])
